@@ -25,7 +25,7 @@ func genStoreOps(r *core.Rand, c *stCase, n int) {
 		}
 	}
 	for i := 0; i < n; i++ {
-		switch r.Pick(36, 6, 8, 6, 7, 6, 14, 9, 11, 3, 4, 2, 9) {
+		switch r.Pick(36, 6, 8, 6, 7, 6, 14, 9, 11, 3, 4, 2, 9, 7) {
 		case 0:
 			c.Cmds = append(c.Cmds, genAdd(r, c))
 			nAdds++
@@ -82,6 +82,28 @@ func genStoreOps(r *core.Rand, c *stCase, n int) {
 			if len(kinds) > 0 {
 				c.Cmds = append(c.Cmds, stCmd{Op: "badadd", Bad: kinds[r.Intn(len(kinds))], X: r.Bool(), N: r.Intn(3)})
 			}
+		case 13:
+			// the same id again: Remove + AddWithID of an id acknowledged earlier (handed out by Add
+			// or explicit), or AddWithID while it is still live (an update) — same modalities, new
+			// content; with and without rotation / flush in between. (HNSW: see removals.)
+			if nAdds > 0 && c.Vec != "hnsw" {
+				ref := r.Intn(nAdds)
+				if r.Chance(0.7) {
+					c.Cmds = append(c.Cmds, stCmd{Op: "remove", Ref: ref})
+				}
+				switch r.Intn(4) {
+				case 0:
+					c.Cmds = append(c.Cmds, stCmd{Op: "rotate"})
+				case 1:
+					c.Cmds = append(c.Cmds, stCmd{Op: "flush"})
+				}
+				c.Cmds = append(c.Cmds, stCmd{Op: "readd", Ref: ref, N: r.Intn(3)})
+				nAdds++
+				if r.Chance(0.6) {
+					p := probes(c)
+					c.Cmds = append(c.Cmds, p[r.Intn(len(p))])
+				}
+			}
 		case 12:
 			// probes with search options, answered by the store and by the reference index
 			for k := r.Range(1, 3); k > 0; k-- {
@@ -90,7 +112,7 @@ func genStoreOps(r *core.Rand, c *stCase, n int) {
 				}
 			}
 		case 11:
-			// the boundary ids 0 and MaxUint32, option probes (positive thresholds derived from the distances the reference index reports — exactly a distance, a midpoint —, aggregation kinds, autocut, nprobes / efSearch, vector+text with every fusion kind through WithFusionKind and WithFusion, k exactly large enough) answered by the store AND by a reference in-memory hybrid index fed the same acknowledged adds and removes: id sets must be equal whenever the vector index is exact and the faithful model says the store presents exactly the live documents, size / membership sanity otherwise; IVF templates are trained through the store's own Train, once each
+			// the boundary ids 0 and MaxUint32, the same id again (Remove then AddWithID of an id handed out by Add or explicit, or AddWithID while still live; same modalities, new content; with and without rotation / flush in between), base directory names with glob metacharacters / spaces / unicode / trailing slash / .. / relative / symlinked parent / very long, rarely a big case (exact vector kinds only; 1100–1500 documents, k = number of documents, default k, k = 0), option probes (positive thresholds derived from the distances the reference index reports — exactly a distance, a midpoint —, aggregation kinds, autocut, nprobes / efSearch, vector+text with every fusion kind through WithFusionKind and WithFusion, k exactly large enough) answered by the store AND by a reference in-memory hybrid index fed the same acknowledged adds and removes: id sets must be equal whenever the vector index is exact and the faithful model says the store presents exactly the live documents, size / membership sanity otherwise; IVF templates are trained through the store's own Train, once each
 			sp := 1 + r.Intn(2)
 			used := false
 			for _, x := range c.Cmds {
@@ -106,6 +128,19 @@ func genStoreOps(r *core.Rand, c *stCase, n int) {
 			}
 		}
 	}
+}
+
+// bigProbes: each configured modality with a huge k, with k = exactly the number of answers, with
+// the builder's default k and with k = 0.
+func bigProbes(c *stCase) []stCmd {
+	var out []stCmd
+	for _, p := range probes(c) {
+		if p.Q == "mdg" || p.Q == "mdgf" {
+			continue
+		}
+		out = append(out, p, stCmd{Op: "search", Q: p.Q, K: 1}, stCmd{Op: "search", Q: p.Q, K: 3}, stCmd{Op: "search", Q: p.Q, K: 4})
+	}
+	return out
 }
 
 var fusionKinds = []string{"weighted_sum", "reciprocal_rank", "max", "min"}
@@ -178,7 +213,28 @@ func genStore(r *core.Rand, tier string) *stCase {
 		c.FlushThr = 200 * 1024 * 1024
 	}
 	c.CompThr = r.Range(2, 5)
+	c.Dir = 0
+	if r.Chance(0.35) {
+		c.Dir = r.Intn(len(storeDirNames))
+	}
 	c.Cmds = append(c.Cmds, stCmd{Op: "open"})
+	if r.Chance(0.012) {
+		// a rare big case: more documents than any fixed bound on k one might think of. HNSW is
+		// approximate at this size (recall is C12's subject): big cases use an exact vector kind
+		if c.Vec == "hnsw" {
+			c.Vec = "flat"
+		}
+		c.Limit = 100 * 1024 * 1024
+		c.FlushThr = 200 * 1024 * 1024
+		c.Cmds = append(c.Cmds, stCmd{Op: "addmany", Cnt: r.Range(1100, 1500), V: c.Vec != "none", T: c.Text || c.Vec == "none"})
+		c.Cmds = append(c.Cmds, bigProbes(c)...)
+		if r.Bool() {
+			c.Cmds = append(c.Cmds, stCmd{Op: "rotate"}, stCmd{Op: "flush"}, stCmd{Op: "evict"})
+			c.Cmds = append(c.Cmds, bigProbes(c)...)
+		}
+		c.Cmds = append(c.Cmds, stCmd{Op: "close"})
+		return c
+	}
 	n := r.Range(5, 40)
 	if tier == "thorough" {
 		n = r.Range(5, 120)
@@ -280,7 +336,7 @@ func nonTrivialStore(lines, replies []string) bool {
 func init() {
 	register(&core.Typed[stCase]{
 		StreamName: "store", Prop: "C08",
-		RuleText: "one open store; random sequential histories over add / addid / remove / flush / forced rotate / trigger-compaction / evict-all / vector, text and metadata probes (metadata also through filter GROUPS alone and groups + filters; every modality with a huge k, with k = exactly the size of the previous answer and with one more), rejected adds (unsupported metadata value type, wrong dimension, zero vector under cosine; through Add and AddWithID), the boundary ids 0 and MaxUint32, option probes (positive thresholds derived from the distances the reference index reports — exactly a distance, a midpoint —, aggregation kinds, autocut, nprobes / efSearch, vector+text with every fusion kind through WithFusionKind and WithFusion, k exactly large enough) answered by the store AND by a reference in-memory hybrid index fed the same acknowledged adds and removes: id sets must be equal whenever the vector index is exact and the faithful model says the store presents exactly the live documents, size / membership sanity otherwise; IVF templates are trained through the store's own Train, memtable limits from below one document up, flush thresholds 60 B .. default, compaction thresholds 2..5, templates flat/hnsw/trained ivf/none x text x metadata; the flush and compaction workers take exactly one lock-delimited step per `bg` command (the interleaving is part of the trace), segment goroutines of a search are serialised in the order they happened to start; after the history all modalities are probed and bookkeeping state and directory are compared with the model; thorough adds directed schedules; a case is non-trivial when a search that had to find documents (must>0) ran with at least one registered segment after a worker step / rotation / flush; distinct = distinct request streams",
+		RuleText: "one open store; random sequential histories over add / addid / remove / flush / forced rotate / trigger-compaction / evict-all / vector, text and metadata probes (metadata also through filter GROUPS alone and groups + filters; every modality with a huge k, with k = exactly the size of the previous answer and with one more), rejected adds (unsupported metadata value type, wrong dimension, zero vector under cosine; through Add and AddWithID), the boundary ids 0 and MaxUint32, the same id again (Remove then AddWithID of an id handed out by Add or explicit, or AddWithID while still live; same modalities, new content; with and without rotation / flush in between), base directory names with glob metacharacters / spaces / unicode / trailing slash / .. / relative / symlinked parent / very long, rarely a big case (exact vector kinds only; 1100–1500 documents, k = number of documents, default k, k = 0), option probes (positive thresholds derived from the distances the reference index reports — exactly a distance, a midpoint —, aggregation kinds, autocut, nprobes / efSearch, vector+text with every fusion kind through WithFusionKind and WithFusion, k exactly large enough) answered by the store AND by a reference in-memory hybrid index fed the same acknowledged adds and removes: id sets must be equal whenever the vector index is exact and the faithful model says the store presents exactly the live documents, size / membership sanity otherwise; IVF templates are trained through the store's own Train, memtable limits from below one document up, flush thresholds 60 B .. default, compaction thresholds 2..5, templates flat/hnsw/trained ivf/none x text x metadata; the flush and compaction workers take exactly one lock-delimited step per `bg` command (the interleaving is part of the trace), segment goroutines of a search are serialised in the order they happened to start; after the history all modalities are probed and bookkeeping state and directory are compared with the model; thorough adds directed schedules; a case is non-trivial when a search that had to find documents (must>0) ran with at least one registered segment after a worker step / rotation / flush; distinct = distinct request streams",
 		NCases: func(tier string) int {
 			if tier == "thorough" {
 				return 3000
